@@ -305,6 +305,30 @@ def impl_geom(vs):
     return out
 
 
+SIG_NO_EAR = 'C17:AxisymmetricVoxel:raysect-triangulate2d-no-ear'
+
+
+def reject_signature(w, st, msg):
+    """signature for a simple polygon that AxisymmetricVoxel refused.  The specific no-ear signature is used only when
+    raysect's triangulate2d, called directly on the vertex list exactly as the constructor stores it (winding-normalised),
+    itself raises its 'at least one ear' RuntimeError — an upstream limitation (boundary-inclusive inside_triangle + rounding
+    on vertices that are collinear with other edges); cherab passes the polygon through unchanged.  Anything else keeps the
+    generic signature."""
+    if st == 'RuntimeError' and 'at least one ear' in str(msg):
+        try:
+            from raysect.core.math import triangulate2d
+            from raysect.core.math.cython.utility import _test_winding2d
+            arr = np.array(w, dtype=np.float64)
+            if not _test_winding2d(arr):
+                arr = np.ascontiguousarray(arr[::-1])
+            st2, m2 = call(triangulate2d, arr)
+            if st2 == 'RuntimeError' and 'at least one ear' in str(m2):
+                return SIG_NO_EAR
+        except Exception:  # noqa
+            pass
+    return 'C17:AxisymmetricVoxel:rejects-simple-polygon:' + st
+
+
 class Recorder:
     def __init__(self, coef):
         self.coef = coef
@@ -414,8 +438,11 @@ def check_polygon(ctx, jobs, vs, kind, placement, exact=False):
         ctx.case(key=('geom', kind, tuple(f2b(c) for c in flat(w))),
                  sample=dict(stream='geom', kind=kind, placement=placement, vertices=w) if (rev, k) == (False, 0) and ctx.rng.random() < 0.05 else None)
         if g['status'] != 'ok':
-            ctx.fail('C17:AxisymmetricVoxel:rejects-simple-polygon:' + g['status'],
-                     'AxisymmetricVoxel(%r) raised %s: %s' % (w, g['status'], g['msg']), dict(check='geom', **desc))
+            sig = reject_signature(w, g['status'], g['msg'])
+            ctx.count('geom:rejected:' + sig.split(':', 2)[2])
+            ctx.fail(sig, 'AxisymmetricVoxel(%r) raised %s: %s%s' % (w, g['status'], g['msg'],
+                     ' -- reproduced by calling raysect.core.math.triangulate2d directly on the winding-normalised vertices' if sig == SIG_NO_EAR else ''),
+                     dict(check='geom', **desc))
             continue
         vox = vox or g
         (sa, a), (sc, c), (sv, vol) = g['area'], g['centroid'], g['volume']
@@ -1048,7 +1075,7 @@ def quad_sampling(ctx, flags, nquads, nsamp):
         for (rev, k), w in variants(vs):
             g = impl_geom(w)
             if g['status'] != 'ok':
-                ctx.fail('C17:AxisymmetricVoxel:rejects-simple-polygon:' + g['status'], 'AxisymmetricVoxel(%r) raised' % (w,), dict(check='quad', vertices=w, kind=kind))
+                ctx.fail(reject_signature(w, g['status'], g['msg']), 'AxisymmetricVoxel(%r) raised %s: %s' % (w, g['status'], g['msg']), dict(check='quad', vertices=w, kind=kind))
                 continue
             ctx.count('quad:' + kind)
             for fname, fn in QUAD_FUNCS.items():
